@@ -7,8 +7,19 @@
 #include <iostream>
 #include <sstream>
 #include <vector>
+#include <unistd.h>
+#include <sys/syscall.h>
 #include "function_fixed.h"
 #include "general.h"
+
+// With VERIF_FAKE_PID set, the process id the code under test sees is that number (the definition in the executable takes
+// precedence over libc's for the statically linked FunctionCompiler): the check chooses pairs of process ids whose temporary
+// names would coincide if process id and counter were not kept apart.
+extern "C" pid_t getpid(void) {
+  const char* f = std::getenv("VERIF_FAKE_PID");
+  if (f && *f) return (pid_t)atol(f);
+  return (pid_t)syscall(SYS_getpid);
+}
 
 int main(int argc, char** argv) {
   if (argc < 3) return 2;
